@@ -16,7 +16,7 @@
 (* compiler+planner hybrids), pipelines.  Overlap: only registries whose   *)
 (* engines share an operation mode with engine 1 (the quick tier)  .       *)
 (***************************************************************************)
-EXTENDS Factory, SequencesExt
+EXTENDS Factory
 CONSTANTS Menu, Three, MaxPipe, Feats, Overlap
 
 F2 == SUBSET Feats      \* Feats = {"f"} or {"f", "g"}
@@ -71,7 +71,7 @@ Next == /\ phase = 0 /\ phase' = 1
 Spec == Init /\ [][Next]_vars
 
 \* resulting_problem_kind of the registry's compilers as a table
-F2Seq == TLCEval(SetToSeq(F2))
+F2Seq == CHOOSE s \in [1..Cardinality(F2) -> F2] : Range(s) = F2
 RKTab == [key \in (DOMAIN reg) \X {"C", "D", "E"} |->
             [j \in DOMAIN F2Seq |->
                [in |-> F2Seq[j],
